@@ -201,7 +201,7 @@ impl<'a> World<'a> {
                     d.touched = true;
                     d.entries.insert(
                         n11,
-                        MNode::File(MFile { data: Content::Mem(Vec::new()), attr: 0, ctime: now.fat_rounded(), mtime_ok: vec![now.fat_rounded()], open: Some(fs_slot), touched: true, init_raw: None, disk_size: 0, loc, clean: true, init_chain: Vec::new() }),
+                        MNode::File(MFile { data: Content::Mem(Vec::new()), attr: 0, ctime: now.fat_rounded(), mtime_ok: vec![now.fat_rounded()], open: Some(fs_slot), touched: true, init_raw: None, disk_size: 0, loc, clean: true, init_chain: Vec::new(), durable: false }),
                     );
                     self.fslots[fs_slot as usize].cur = Some((fh, FH { vol: dh.vol, dir: dh.dir, name: n11, writable: true, off: 0, chain: Vec::new(), dirty: false, ever_dirty: false }));
                     self.probes.hit("file_created");
@@ -221,6 +221,7 @@ impl<'a> World<'a> {
                             f.init_raw = None;
                             f.disk_size = 0;
                             f.clean = true;
+                            f.durable = false;
                             // the truncation is itself a modification; both readings accepted
                             f.mtime_ok.push(now.fat_rounded());
                         }
@@ -295,6 +296,9 @@ impl<'a> World<'a> {
                 if fh.dirty {
                     f.disk_size = clen(&f.data);
                     f.clean = true;
+                }
+                if f.clean {
+                    f.durable = true;
                 }
                 if close {
                     f.open = None;
@@ -554,7 +558,10 @@ impl<'a> World<'a> {
                 }
                 f.touched = true;
                 f.init_raw = None;
-                f.clean = false;
+                if len > 0 {
+                    f.clean = false;
+                    f.durable = false;
+                }
                 f.attr |= 0x20;
                 if len > 0 {
                     f.mtime_ok = vec![now.fat_rounded()];
@@ -615,6 +622,7 @@ impl<'a> World<'a> {
                             f.touched = true;
                             f.init_raw = None;
                             f.clean = false;
+                            f.durable = false;
                             f.mtime_ok.push(now.fat_rounded());
                             self.vols[fh.vol].dirs.get_mut(&fh.dir).unwrap().touched = true;
                             if let Some((_, x)) = self.fslots[fs_slot as usize].cur.as_mut() {
